@@ -30,7 +30,7 @@ type templateSite struct {
 	Format   string
 	IsConst  bool
 	Bindings []binding
-	NArgs    int // Sprintf operands
+	NArgs    int  // Sprintf operands
 	OpenArgs bool // bindings could not be enumerated (non-literal Args)
 }
 
@@ -215,7 +215,7 @@ func (s *templateSite) addArg(info *types.Info, a ast.Expr) {
 }
 
 // placeholder is one @name occurrence of a format (independent
-// re-implementation of the template grammar: '@' [A-Za-z0-9_]+ '\''?).
+// re-implementation of the template grammar: '@' [A-Za-z0-9_]+ '\”?).
 type placeholder struct {
 	Name       string
 	Start, End int // byte offsets of "@name" plus the optional apostrophe
